@@ -332,6 +332,7 @@ def main(argv=None):
             "trusted_base": sorted(trusted) + ["pyvc VC generator (interpreter cross-checked against CPython by pyvc.conformance)",
                                                 "z3 5.1.0 (fallback: cvc5 1.0.3, z3 4.8.12)"],
             "functions_under_contract": sorted(functions),
+            "functions_symbolically_executed": sorted({f for rj in results for f in rj.get("executed", [])}),
             "obligation_sets": [{"name": rj["name"], "kind": rj["kind"], "status": rj["status"], "paths": rj["paths"],
                                  "obligations": len(rj["obligations"]), "bounded": rj["bounded"], "secs": rj["secs"]}
                                 for rj in results],
